@@ -130,6 +130,16 @@ class HistActor(object):
         self.tx_no = 0
         self.in_commit = False
 
+    pending_commit = None
+
+    def apply_pending_commit(self):
+        """The model's commit point: called at the TOC rename (schedule-
+        driven runs) or when commit() returned, whichever comes first."""
+        pc = self.pending_commit
+        if pc is not None:
+            self.pending_commit = None
+            pc[0].commit(clear=pc[1])
+
     def ensure_index(self):
         if self.ix is None:
             if not self.s.index_exists():
@@ -331,6 +341,7 @@ class HistActor(object):
             s.os.fail_plan = None
             if self.before_commit:
                 self.before_commit(self, m)
+            self.pending_commit = (mw, m == "clear")
             try:
                 w.commit(**kw)
             except (SimAbort, SimKilled, HarnessError, Violation):
@@ -340,7 +351,7 @@ class HistActor(object):
                                 sig="commit_raised:" + exc_sig(e))
             finally:
                 self.in_commit = False
-            mw.commit(clear=(m == "clear"))
+            self.apply_pending_commit()
             self.w = self.mw = None
             self.commits += 1
             self.last_commit_kind = m
